@@ -103,6 +103,7 @@ type X struct {
 	// instantiation hints: universally quantified preconditions assumed at the
 	// entry of the function under verification, as functions of the bound
 	// variable; instantiated at slice element reads (sym_instr.go indexAddr)
+	bigDeclared    bool // bigmodel.go
 	recordForalls  bool
 	assumedForalls []func(Term) Term
 	instDone       map[string]bool
